@@ -145,8 +145,10 @@ Clauses(e, n) ==
              lhold'[p][a].mv = lhold'[p][a].qty * seen'[p][a]) >>,
         \* P&L: realised as the accounting says; the three identities of C03 relative to the price the
         \* implementation currently values the holding at
+        \* (positions with a gross volume beyond 50 000 units are left to the other clauses: the exact P&L numerators
+        \* are products of money totals and quantities and leave TLC's 32-bit integers)
         << << "C03", "pnl" >>, Amt(\A p \in ps \cap DOMAIN pos' : \A a \in DOMAIN lhold'[p] \cap DOMAIN pos'[p] :
-             lhold'[p][a].qty = Net(pos'[p][a]) /\ lhold'[p][a].qty # 0 =>
+             lhold'[p][a].qty = Net(pos'[p][a]) /\ lhold'[p][a].qty # 0 /\ pos'[p][a].bq + pos'[p][a].sq <= 50000 =>
                LET P == Mark(pos'[p][a], PxObs(p, a), pos'[p][a].pclk) IN
                /\ RWithin1(lhold'[p][a].rpnl, Realised(P))
                /\ RWithin1(lhold'[p][a].upnl, Unrealised(P))                                  \* (price - avg cost) * net
